@@ -252,6 +252,53 @@ theorem interior_iff_tangential_complete (shape idx : List Nat) (a : Nat) (hd : 
       · exact e
       · exact absurd (r1.2.2 (by omega)) h1
 
+/-- **1-D convention of the code, as it is**: `interior_faces[0] = face_index[0][1:-1]` slices the normal axis itself (there
+are no tangential axes), so the interior faces of the grid `[n]` are the faces `1 … n-3`: all but the first and the last.
+This is a different notion from the ≥ 2-D one (`interior_iff_tangential_complete`). -/
+theorem interior_1d (n k : Nat) : k ∈ interiorFaces [n] 0 ↔ (1 ≤ k ∧ k + 3 ≤ n) := by
+  have hfs : fshape [n] 0 = [n - 1] := rfl
+  have henc : ∀ i, encF [n - 1] [i] = i := by intro i; simp [encF]
+  simp only [interiorFaces, hfs, boxF, prodL, List.mem_map, List.mem_filter, List.mem_range, Nat.mul_one]
+  constructor
+  · rintro ⟨idx, ⟨⟨j, hj, rfl⟩, hint⟩, rfl⟩
+    simp only [decF] at hint ⊢
+    simp [isInterior, interiorAxes, hfs, Nat.mod_eq_of_lt hj] at hint
+    simp [faceNum, offset, hfs, henc, Nat.mod_eq_of_lt hj]
+    omega
+  · rintro ⟨h1, h2⟩
+    refine ⟨[k], ⟨⟨k, by omega, by simp [decF, Nat.mod_eq_of_lt (by omega : k < n - 1)]⟩, ?_⟩, ?_⟩
+    · simp [isInterior, interiorAxes, hfs]; omega
+    · simp [faceNum, offset, hfs, henc]
+
+/-- the guard is exactly "1 to 3 axes, all extents positive, one voxel size per axis" -/
+theorem grid_guard_ok (shape : List Nat) (h : List Rat) :
+    gridGuard shape h = .ok () ↔
+      (h.length = shape.length ∧ 1 ≤ shape.length ∧ shape.length ≤ 3 ∧ ∀ n ∈ shape, n ≠ 0) := by
+  unfold gridGuard
+  by_cases h1 : h.length < shape.length ∧ 2 ≤ shape.length
+  · rw [if_pos h1]; constructor
+    · intro e; cases e
+    · rintro ⟨e, _⟩; omega
+  rw [if_neg h1]
+  by_cases h2 : h.length ≠ shape.length
+  · rw [if_pos h2]; constructor
+    · intro e; cases e
+    · rintro ⟨e, _⟩; exact absurd e h2
+  rw [if_neg h2]
+  by_cases h3 : shape.length = 0 ∨ 3 < shape.length
+  · rw [if_pos h3]; constructor
+    · intro e; cases e
+    · rintro ⟨_, a, b, _⟩; omega
+  rw [if_neg h3]
+  by_cases h4 : shape.any (fun n => n == 0) = true
+  · rw [if_pos h4]; constructor
+    · intro e; cases e
+    · rintro ⟨_, _, _, hz⟩
+      obtain ⟨n, hn, e⟩ := List.any_eq_true.1 h4
+      exact absurd (by simpa using e) (hz n hn)
+  · rw [if_neg h4]
+    refine ⟨fun _ => ⟨by omega, by omega, by omega, fun n hn e => h4 (List.any_eq_true.2 ⟨n, hn, by simp [e]⟩)⟩, fun _ => rfl⟩
+
 /-- The corner indices recorded for a face (tables re-tabulated from the running code) denote reference-cell corners
 that lie on that face: in the lower neighbour (side 0) the face is the side `x_a = 1`, in the upper neighbour (side 1)
 the side `x_a = 0`; each list has `2^(dim-1)` distinct entries that are valid corner numbers. -/
